@@ -80,14 +80,18 @@ func checkPos(src []byte, wantFile string, file string, line, col, offset int, h
 		return fmt.Sprintf("line %d, input has %d lines", line, len(lines))
 	}
 	l := lines[line-1]
-	if col < 1 || col > len(l)+1 {
+	start := 0
+	for i := 0; i < line-1; i++ {
+		start += len(lines[i]) + 1
+	}
+	// the end-of-file position after a trailing newline is reported as one
+	// column past the newline of the last line (the line table, like go/token's,
+	// has no entry for an empty last line): still inside [0, len(input)]
+	eofAfterNewline := start+col-1 == len(src) && col == len(l)+2 && line == len(lines)-1
+	if col < 1 || (col > len(l)+1 && !eofAfterNewline) {
 		return fmt.Sprintf("column %d, line %d has %d bytes", col, line, len(l))
 	}
 	if hasOffset {
-		start := 0
-		for i := 0; i < line-1; i++ {
-			start += len(lines[i]) + 1
-		}
 		if offset != start+col-1 || offset < 0 || offset > len(src) {
 			return fmt.Sprintf("offset %d does not match line %d column %d (input %d bytes)", offset, line, col, len(src))
 		}
@@ -158,7 +162,40 @@ func c04Mutate(r *rand.Rand, src string) string {
 	return strings.Join(toks, "")
 }
 
+// c04ManyErrors builds inputs that make the scanner (or parser) report errors
+// on many distinct lines, inside and outside comments / raw strings.
+func c04ManyErrors(r *rand.Rand) string {
+	bad := []string{"\x00", "\xff", "\xef\xbb\xbf", "#", "$", "@", "\xc0\xaf", "'", "\"", "0x", "1e", "'ab'", "\\"}
+	n := 5 + r.Intn(30)
+	open, close := pick(r, [][2]string{{"/*", "*/"}, {"`", "`"}, {"", ""}, {"//", ""}, {"x := [", "]"}, {"f(", ")"}})[0], ""
+	switch open {
+	case "/*":
+		close = "*/"
+	case "`":
+		close = "`"
+	case "x := [":
+		close = "]"
+	case "f(":
+		close = ")"
+	}
+	var sb strings.Builder
+	sb.WriteString(pick(r, []string{"", "", "x := 1\n", "\n\n"}))
+	sb.WriteString(open)
+	for i := 0; i < n; i++ {
+		if open == "//" && i > 0 {
+			sb.WriteString("//")
+		}
+		sb.WriteString(" " + pick(r, bad) + pick(r, []string{"", " ", ","}) + "\n")
+	}
+	sb.WriteString(close)
+	sb.WriteString(pick(r, []string{"", " x := 1", "\ny := 2\n"}))
+	return sb.String()
+}
+
 func c04Raw(r *rand.Rand) string {
+	if r.Intn(3) == 0 {
+		return c04ManyErrors(r)
+	}
 	n := r.Intn(60)
 	var sb strings.Builder
 	for i := 0; i < n; i++ {
